@@ -366,6 +366,7 @@ class C14Engine(PairedEngine):
         if not chosen:
             return viol, facts
         step, conn, kind, orig_frames = chosen[0]
+        spec["dup_at"] = step        # recorded so that a replay duplicates the same command
         cmd = dict(self._resolved_cmd(H, step))
         app, side = H.conn_app.get(conn), H.conn_side.get(conn)
         if app is None:
@@ -475,6 +476,7 @@ class C18Engine(PairedEngine):
             configs = [CONFIGS[0]] + rng.sample(CONFIGS[1:], 3)
             if all(c["allow_list"] for c in configs):
                 configs[-1] = dict(configs[-1], allow_list=False)
+        spec["configs"] = configs    # recorded for replay
         obs = []
         viol = []
         for cfg in configs:
